@@ -493,6 +493,10 @@ def observe_mapping(d, cfg, res):
     o['result_buffer_left'] = any(x.startswith('result_buffer_') for x in tl)
     o['tmp_dir_left'] = any(x.startswith('cell_type_mapper_') for x in tl)
     o['summary'] = cfg['summary_metadata_path'] is not None and pathlib.Path(cfg['summary_metadata_path']).exists()
+    o['obsm'] = False                        # the query file was modified: obsm holds the requested key
+    if cfg['obsm_key']:
+        with h5py.File(cfg['query_path'], 'r') as f:
+            o['obsm'] = 'obsm' in f and cfg['obsm_key'] in f['obsm']
     return o
 
 
@@ -509,13 +513,18 @@ def observed_trace(o, flags):
         tags.append(1)
     tags += [2, 3]
     tags += [t for t in o['log_tags'] if t in (4, 5, 6)]
+    # a failure inside `finally` (RunEffects.FailFinally, tag 20): the call raised and no traceback reached the log
+    # (the `except` clause did not run); the exception ends the trace, nothing is re-raised
+    in_finally = o['raised'] and 13 not in o['log_tags'] and not o['traceback_in_log_file']
     if o['csv']:
         tags.append(7)
+    if o.get('obsm'):
+        tags.append(8)
     if o['summary']:
         tags.append(9)
     if 11 in o['log_tags']:
         tags.append(11)
-    if o['raised']:
+    if o['raised'] and not in_finally:
         tags.append(12)
     if o['traceback_in_log_file'] or (not o['log_file'] and 13 in o['log_tags']):
         tags.append(13)                      # before the log file iff the file holds the traceback
@@ -535,11 +544,11 @@ def observed_trace(o, flags):
     if o['hdf5'] is not None:
         tags.append(18)
     if o['raised']:
-        tags.append(19)
+        tags.append(20 if in_finally else 19)
     return tags
 
 
-OBSERVABLE = {4, 5, 6, 7, 9, 10, 11, 12, 13, 14, 15, 16, 17, 18, 19}
+OBSERVABLE = {4, 5, 6, 7, 8, 9, 10, 11, 12, 13, 14, 15, 16, 17, 18, 19, 20}
 
 
 def compare_mapping(ctx, items):
@@ -852,16 +861,23 @@ def other_fail_points(ctx, rng, n):
     for i in range(n):
         d = base / f'p{i}'
         d.mkdir()
-        point = [2, 4, 6][i % 3]
+        point = [2, 4, 6, 9][i % 4]
         cfg = pipeline.config_for(d, base / 'query.h5ad', base / 'stats.h5', base / 'markers.json',
                                   chunk_size=3, n_processors=2, csv=(point == 4 or rng.random() < 0.5),
-                                  hdf5=rng.random() < 0.7)
+                                  hdf5=(point == 9 or rng.random() < 0.7))
         if point == 2:      # the marker lookup names no gene of the query at the root: the marker cache raises
             bad = {'None': ['nonexistent_gene_a', 'nonexistent_gene_b']}
             json.dump(bad, open(d / 'bad_markers.json', 'w'))
             cfg['query_markers']['serialized_lookup'] = str(d / 'bad_markers.json')
         elif point == 4:    # the CSV path is in a directory that does not exist
             cfg['csv_result_path'] = str(d / 'no_such_dir' / 'result.csv')
+        elif point == 9:    # a failure inside `finally`: the HDF5 path (not probed before `try`) is in a directory
+                            # that does not exist; obsm requested on a private copy of the query file (audit 3, item 13)
+            cfg['hdf5_result_path'] = str(d / 'no_such_dir' / 'result.h5')
+            if rng.random() < 0.7:
+                shutil.copy(base / 'query.h5ad', d / 'query.h5ad')
+                cfg['query_path'] = str(d / 'query.h5ad')
+                cfg['obsm_key'] = 'cdm'
         else:               # the summary path is in a directory that does not exist
             cfg['summary_metadata_path'] = str(d / 'no_such_dir' / 'summary.json')
         res = call_stage(mapping_call(cfg), ['mapping'], poll_sleep=0.002)
@@ -888,7 +904,15 @@ def run(ctx):
     ctx.assumptions += [
         'os._exit(k) with k a multiple of 256 is reported by the operating system as exit code 0: no parent can see it '
         '(Pool.exit_code_of models the mod 256; c14_abnormal_codes excludes it; the tie X checks it on real workers)',
+        'os._exit(k) is driven with C-int arguments only (outside -2**31 <= k < 2**31 the call raises OverflowError in the worker, '
+        'exit code 1: Model/ExitCode.v exit_arg_ok); workers are killed with terminating signals only (SIGKILL, SIGTERM, SIGUSR1; '
+        'ignored or stopping signals - SIGCHLD, SIGCONT, SIGURG, SIGWINCH, SIGPIPE, SIGXFSZ, SIGSTOP... - do not end a worker: '
+        'ExitCode.terminating_signal)',
         'every started worker terminates (a hanging worker, a dying Manager process and a crash of the parent are not modelled)',
+        'failures inside the `finally` block of run_mapping (RunEffects fail points 7 log file, 8 JSON, 9 HDF5) are not worker '
+        'failures and outside the statement of C14; point 9 (hdf5_output_path in a missing directory: the only one of the three '
+        'paths run_mapping does not probe before `try`) is driven for correspondence only: the real call raises after the success '
+        'message, CSV, obsm and JSON were written, as the model says (c14_failure_in_finally_after_success); 7 and 8 are not driven',
         'fork start method; faults are injected by harness-side wrappers of module-level names (harness/faults.py), '
         'active only under CELL_TYPE_MAPPER_VERIF=1; no source hook',
         'a stage called with n_processors <= 1 that runs its work inline (statistics) has no worker and is not faulted',
@@ -1004,7 +1028,7 @@ def run(ctx):
         shutil.rmtree(fb, ignore_errors=True)
 
     # ---- P
-    other_fail_points(ctx, rng, ctx.n(3, 12))
+    other_fail_points(ctx, rng, ctx.n(4, 12))
     faults.uninstall()
     ctx.extra['stages_faulted'] = sorted({k.split(' ')[0] for k in ctx.extra.get('distribution', {}).get('fault', {})})
 
